@@ -61,6 +61,7 @@ type CallbackSpec struct {
 	NoReset     bool   `json:"no_reset,omitempty"`
 	NextTimeUS  int64  `json:"next_timeout_us,omitempty"`
 	Write       string `json:"write,omitempty"` // what the callback sends to the device (with return)
+	Fail        bool   `json:"fail,omitempty"`  // the callback function returns an error
 }
 
 // OpSpec is one step of the workload.
@@ -219,6 +220,8 @@ type OpRec struct {
 	WritesAtEnd    int
 	CbFired        []string
 }
+
+var errCallbackFailed = errors.New("the callback function failed (on purpose)")
 
 // ErrClass maps an error to the library's error class names.
 func ErrClass(err error) string {
@@ -762,9 +765,12 @@ func (sr *SessionRun) do(env *Env, op *OpSpec, o []util.Option, rec *OpRec) {
 			if cs.NextTimeUS > 0 {
 				co = append(co, opoptions.WithCallbackNextTimeout(oddTimeout(Micro(cs.NextTimeUS))))
 			}
-			name, wr := cs.Name, cs.Write
+			name, wr, fail := cs.Name, cs.Write, cs.Fail
 			cb, err := generic.NewCallback(func(d *generic.Driver, s string) error {
 				sr.cbRec.CbFired = append(sr.cbRec.CbFired, name+"|"+s)
+				if fail {
+					return errCallbackFailed
+				}
 				if wr != "" {
 					return d.Channel.WriteAndReturn([]byte(wr), false)
 				}
